@@ -774,7 +774,54 @@ func genPartialBatch(r *Rand, pool []Acc) ([]int, string) {
 	}
 }
 
+// genPartialSingle: a single-signature request (or a batch of accounts signed for one by one) in
+// which the account's signer fails the call -- every call of the request, or only the first one --
+// then the same request again when the failure has gone.
+func genPartialSingle(r *Rand, i int) Input {
+	chain, e, forkStyle := genChain(r)
+	names := []string{"all", "prot-signer", "wallet", "dirk", "all-dist", "local-dist", "prot-only"}
+	pool := make([]Acc, r.Range(1, 4))
+	for j := range pool {
+		pool[j] = profiles[names[r.Intn(len(names))]]
+		pool[j].Key = uint64(j + 1)
+	}
+	kind := kinds[i%len(kinds)]
+	if !isSingle(kind) { // batches signed for one by one: wallet accounts, local distributed ones
+		for j := range pool {
+			pool[j] = profiles[[]string{"wallet", "local-dist", "prot-signer"}[r.Intn(3)]]
+			pool[j].Key = uint64(j + 1)
+		}
+	}
+	in := Input{Chain: chain, Pool: pool}
+	q := genReq(r, chain, pool, kind, e)
+	if len(q.Batch) == 0 {
+		q.Batch = []int{0}
+		q.Idxs, q.Contribs = nil, nil
+		genContent(r, &q, chain, e)
+	}
+	victim := pool[q.Batch[r.Intn(len(q.Batch))]].Key
+	failure := "partial:single-fails"
+	if r.Bool() {
+		failure = "partial:single-fails-first-call-only"
+		q.SingleOnce = []uint64{victim}
+	} else {
+		q.SingleFail = []uint64{victim}
+	}
+	clean := q
+	clean.SingleFail, clean.SingleOnce = nil, nil
+	steps := []Req{q}
+	if r.Bool() {
+		steps = append(steps, clean)
+	}
+	in.Req, in.Then = steps[0], steps[1:]
+	in.Tags = []string{"partial-failure", forkStyle, "pool:mixed-profiles", failure, "partial:single-signature-paths"}
+	return in
+}
+
 func genPartial(r *Rand, i int) Input {
+	if i%7 == 3 {
+		return genPartialSingle(r, i/7)
+	}
 	chain, e, forkStyle := genChain(r)
 	pool, poolStyle := genPartialPool(r)
 	in := Input{Chain: chain, Pool: pool}
@@ -873,7 +920,7 @@ func genPartial(r *Rand, i int) Input {
 	shape := "partial:one-request"
 	steps := []Req{q}
 	clean := q
-	clean.BatchFail, clean.BatchOnce, clean.BatchZero, clean.BatchErr, clean.SingleFail = nil, nil, nil, nil, nil
+	clean.BatchFail, clean.BatchOnce, clean.BatchZero, clean.BatchErr, clean.SingleFail, clean.SingleOnce = nil, nil, nil, nil, nil, nil
 	switch r.Intn(6) {
 	case 0: // the same batch asked for again when the failure has gone, and the failure once more
 		shape = "partial:failure-then-clean-then-failure"
@@ -897,7 +944,7 @@ func genPartial(r *Rand, i int) Input {
 // partialTags: families of a request with scripted transient failures, computed from the input.
 func partialTags(in Input) []string {
 	var tags []string
-	if len(in.missKeys())+len(in.BatchErr)+len(in.SingleFail) == 0 {
+	if len(in.missKeys())+len(in.BatchErr)+len(in.SingleFail)+len(in.SingleOnce) == 0 {
 		return nil
 	}
 	tags = append(tags, "transient-signer-failure")
